@@ -20,12 +20,18 @@ def generate_source_code(docstring, parsed):
     while ancestor is not None:
         user_names.update(x.name for x in ancestor.body if hasattr(x, 'name'))
         ancestor = ancestor.extends
+    # (Inline Python that is evaluated meanwhile may compile another grammar:
+    # afterwards the names are again the ones of the grammar around it.)
+    previous_names = getattr(_compilation, 'user_names', ())
     _compilation.user_names = user_names
 
-    _mark_calls_of_locals(parsed.body)
+    try:
+        _mark_calls_of_locals(parsed.body)
 
-    # Convert the parse tree into a list of parsing expressions.
-    nodes = parser.transform(parsed.body, _create_parsing_expression)
+        # Convert the parse tree into a list of parsing expressions.
+        nodes = parser.transform(parsed.body, _create_parsing_expression)
+    finally:
+        _compilation.user_names = previous_names
 
     out = _Builder()
     out.add_docstring(docstring)
